@@ -307,6 +307,10 @@ pub fn run(out: &mut Shards, scn: &str, lgk: u8, rf: u8, p: f32, seed: u64, ops:
                         if ver == 1 && !c.is_empty() && es.is_empty() && !est {
                             continue;
                         }
+                      // an empty serial-version-3 image is read without looking at its seed hash: Java's
+                      // canonical empty image (01 03 03 00 00 1E 00 00) carries 0 there
+                      let shs: Vec<u16> = if c.is_empty() && ver == 3 { vec![sh, 0, 0x1234] } else { vec![sh] };
+                      for sh in shs {
                         let img = if ver == 4 { ref_v4(&es, c.theta64(), sh) } else { enc_v123(ver, &es, c.theta64(), c.is_empty(), ordered, sh) };
                         let to = ncmp;
                         ncmp += 1;
@@ -337,6 +341,7 @@ pub fn run(out: &mut Shards, scn: &str, lgk: u8, rf: u8, p: f32, seed: u64, ops:
                                 return;
                             }
                         }
+                      }
                     }
                 }
                 // round trips in both forms
